@@ -29,13 +29,22 @@ type RawTarget struct {
 }
 
 func NewRawTarget() *RawTarget {
-	ln, err := net.Listen("tcp", "127.0.0.1:0")
+	t, err := NewRawTargetAt("127.0.0.1:0")
 	if err != nil {
 		panic(err)
 	}
+	return t
+}
+
+// NewRawTargetAt starts listening on a given address (a port that was free - refused - until now)
+func NewRawTargetAt(addr string) (*RawTarget, error) {
+	ln, err := net.Listen("tcp", addr)
+	if err != nil {
+		return nil, err
+	}
 	t := &RawTarget{ln: ln, conns: map[net.Conn]struct{}{}, echo: map[string]string{}, BigSize: 10 << 20, Hold: 2 * time.Second}
 	go t.accept()
-	return t
+	return t, nil
 }
 
 func (t *RawTarget) Addr() string    { return t.ln.Addr().String() }
